@@ -37,7 +37,8 @@ func TestMain(m *testing.M) {
 			"product with the winding normal of every triangle that references the vertex. " +
 			"Non-trivial = the surface only closes through the mechanisms the property names: rows >= 3 (pole fans + at least one quad strip + seam wrap-around) for sphere/hemisphere, " +
 			"any capped cylinder (side strip, seam column and two cap rings only meet after merging), boxes with three pairwise different extents; chains with >= 2 steps. Distinct by case JSON. " +
-			"Sampled counts include power-of-two boundaries up to 65 536 (70 000 sides) and one case in four lies at an overall scale 1e-9..1e9.",
+			"Sampled counts include power-of-two boundaries up to 65 536 (70 000 sides) and one case in four lies at an overall scale 1e-9..1e9. " +
+			"Every solid is judged after another solid of its family with other parameters was built; sub-check concurrent-builders bundles 2-5 cases (non-trivial).",
 		Assumptions: []string{
 			"admissible parameters: radius, height, width, depth finite and > 0 (generated in [1e-3,1e3]); rows >= 2 and columns >= 3 (what UVSphere/Hemisphere.UV accept without reporting failure); Cylinder.Sides >= 3 (the constructor validates nothing; fewer sides do not bound a solid)",
 			"only the capped cylinder (NoTop=false, NoBottom=false) is a solid; pipes and half-open cylinders are open surfaces and outside the property",
